@@ -5,6 +5,13 @@ from . import expr as E
 VAR_POOL = ['r', 'rr', 'r_in', 'r_in0', 'm_in2', 'x', 'x_v1', 'x_v2', 'weight', 'weight_in0', 'k', 'k1', 'k10',
             'a_b', 'ab', 'v', 'u', 'q', 'z', 's', 'g', 'h', 'tau', 'c0', 'w', 'm', 'u_in0', 'v_in1', 'xx', 'e1']
 SAFE_POOL = ['r', 'x', 'v', 'u', 'q', 'z', 's', 'g', 'h', 'w', 'm', 'a', 'b', 'c', 'p', 'e1', 'e2', 'k', 'tau']
+# pools by hostility class (see known_findings.json: names that look like edge-local names / derived labels)
+EDGE_LOCAL_NAMES = ['weight', 'weight_in0', 'r_in0', 'm_in2', 'u_in0', 'v_in1', 'k_source0']
+DERIVED_NAMES = ['x_v1', 'x_v2', 'r_v1', 'q_num1']
+CONTAINING_NAMES = ['rr', 'r_in', 'k1', 'k10', 'a_b', 'ab', 'xx', 'c0']
+MAIN_POOL = SAFE_POOL + CONTAINING_NAMES + DERIVED_NAMES
+DERIVED_POOL = ['x', 'r', 'q', 's', 'z', 'u', 'k', 'a'] + DERIVED_NAMES
+EDGE_LOCAL_POOL = ['x', 'r', 'q', 's', 'z', 'u', 'k', 'a', 'm', 'v'] + EDGE_LOCAL_NAMES
 FUNCS = ('sin', 'tanh', 'sigmoid', 'cos')
 
 
@@ -140,7 +147,7 @@ def gen_net(rnd, n_nodes=None, pool=None, max_types=3, depth=None, edge_density=
             alg_out_p=0.25, n_edges=None, funcs=FUNCS, same_type_bias=False, unique_types=False):
     """Random network spec.  `forbid`: risk features that must not occur (resampled away).
     Returns (spec, features, risk)."""
-    for attempt in range(200):
+    for attempt in range(3000):
         spec, feats, risk = _gen_net(rnd, n_nodes, pool, max_types, depth, edge_density, alg_out_p, n_edges, funcs,
                                      same_type_bias, unique_types)
         if allow is not None and not allow(spec, feats, risk):
